@@ -31,7 +31,8 @@ CARDWORDS = ['M', 'MC', 'm', 'mc', 'Mc']
 STR_PIECES = ["'", "''", "'''", "--", "-- x", "\n", "\n\n", "\x00", "é", "日本", "\U0001F600", "\\", '"',
               "a", "b c", " ", "\t", ");", "INSERT INTO", ",", "%s", "%d", "(", "-", "'--'", "\n--\n'", "ß", "0", "1.5",
               "\"x\"", "\\'", "''\n''", "\x7f", "ı", " ", "\r", "\r\n", "a\rb", "\r'"]
-INT_VALUES = [0, 1, -1, 7, -42, 2 ** 31 - 1, 2 ** 31, -2 ** 31, 2 ** 63 - 1, 2 ** 63, -2 ** 63, -2 ** 63 - 1, 2 ** 64, 2 ** 64 + 1,
+INT_VALUES = [0, 1, -1, 7, -42, 255, 256, 2 ** 31 - 1, 2 ** 31, -2 ** 31, 2 ** 53 - 1, 2 ** 53, 2 ** 53 + 1, -(2 ** 53 + 1), 2 ** 63 - 1,
+              2 ** 63, 2 ** 63 + 1, -2 ** 63, -2 ** 63 - 1, 2 ** 64 - 1, 2 ** 64, 2 ** 64 + 1,
               10 ** 30, -10 ** 40, 2 ** 128, 10 ** 100 + 1]
 ID_VALUES = [0, 1, 2, 255, 2 ** 32, 2 ** 64 - 1, 2 ** 64, 2 ** 127, 2 ** 128 - 1, 0x0123456789abcdef0123456789abcdef]
 REAL_VALUES = [0.0, -0.0, 1.5, -2.25, 0.1, -0.1, 1e10 + 0.5, 123456789.123456, 0.0000005, 0.0000015, 2.5e-6, 0.1234565,
@@ -567,12 +568,14 @@ def stmt_dump(s):
 
 
 def uc_table(texts):
-    """Python's view of the non-ASCII characters of the texts: (code, is \\d, is \\w, upper-case code points)"""
+    """Python's view of the non-ASCII characters of the texts: (code, is \\d, is \\w, upper-case code points, int(ch) of a
+    \\d character -- what float() reads it as)"""
     import re
     from sexp import Sym
     seen = sorted(set(ch for t in texts for ch in t if ord(ch) >= 128))
     rows = []
     for ch in seen:
-        rows.append([ord(ch), Sym('T') if re.match(r'\d', ch) else Sym('F'), Sym('T') if re.match(r'[\w_]', ch) else Sym('F'),
-                     [ord(c) for c in ch.upper()]])
+        isd = bool(re.match(r'\d', ch))
+        rows.append([ord(ch), Sym('T') if isd else Sym('F'), Sym('T') if re.match(r'[\w_]', ch) else Sym('F'),
+                     [ord(c) for c in ch.upper()], int(ch) if isd else 0])
     return rows
